@@ -31,7 +31,8 @@
 (*   sex:      scenario female, hapx, withy, usew, sdm (noise sd in 1/1000), nx, sseed, w (weights k/64 or <<>>);     *)
 (*             guess ("female" | "male" | "none" | other), dosex (the `sex` column of do_sex), cli, clisex            *)
 (*             (`cnvkit.py sex` run in-process on the written file), so / soff (shift_xx with is_xx=None), fo / foff  *)
-EXTENDS Stats, Karyotype, FiniteSetsExt
+EXTENDS Stats, FiniteSetsExt
+K == INSTANCE Karyotype      \* (its `Prefixes` clashes with SequencesExt.Prefixes, hence a named instance)
 
 CtEstimators == {"median", "mean", "biweight", "mode", "default"}
 CtCenterOps == {"center." \o e : e \in CtEstimators}
@@ -49,7 +50,7 @@ CtForce(s) == s \o <<>>                         \* materialise a lazily evaluate
 CtN(r) == Len(r.bn)
 CtBase(r, i) == IF r.bn[i] >= 0 THEN ToString(r.bn[i]) ELSE r.bs[i]
 CtKey(r, i) == <<r.bn[i], r.bs[i]>>
-CtClass(r, i) == Class(CtBase(r, i), r.s[i], r.e[i], r.genome)           \* Karyotype: auto / X / Y / PARX / PARY
+CtClass(r, i) == K!Class(CtBase(r, i), r.s[i], r.e[i], r.genome)           \* Karyotype: auto / X / Y / PARX / PARY
 CtIsAutoName(r, i) == r.bn[i] >= 0
 CtAscending(S) == SortSeq(SetToSeq(S), LAMBDA a, b : a < b)
 CtSameMultiset(a, b) ==
@@ -146,7 +147,7 @@ CtSexTitle(r) == IF r.female THEN "Female" ELSE "Male"
 (* drop_low_coverage: drop_idx = log2 < min_cvg; if "depth" in self: drop_idx |= depth == 0; self[~drop_idx]          *)
 CtADropLow(r, rows) == SelectSeq(rows, LAMBDA i : ~(ZLt(r.x[i], CtNullCut) \/ (r.hasdepth /\ r.dz[i])))
 (* cnary.parx_filter via Karyotype.ParXFilter (chr_x_label from the first row's naming; one style per table)          *)
-CtAParX(r, i) == ParXFilter(r.pfx, r.pfx, CtBase(r, i), r.s[i], r.e[i], r.genome)
+CtAParX(r, i) == K!ParXFilter(r.pfx, r.pfx, CtBase(r, i), r.s[i], r.e[i], r.genome)
 (* CopyNumArray.autosomes + GenomicArray.autosomes:  also = parx_filter(genome) if a genome is given;                 *)
 (*   is_auto = chromosome.str.match("(chr)?\d+$");  if not is_auto.any(): return self;  is_auto |= also; self[is_auto]*)
 CtAAutosomes(r, rows) ==
@@ -186,14 +187,14 @@ CtLoggedAt(log, j, args) == IF j <= Len(log) /\ log[j].args = args THEN log[j].r
 (* named X, whether or not a genome build was given (diploid_parx_genome only reaches guess_xx)                       *)
 CtAShiftXX(r, isxx) ==
     LET d == IF isxx /\ r.hapx THEN -r.U ELSE IF ~isxx /\ ~r.hapx THEN r.U ELSE 0
-    IN [i \in 1..CtN(r) |-> IF ChromName(r.pfx, CtBase(r, i)) = XLabel(r.pfx) THEN r.k[i] + d ELSE r.k[i]]
+    IN [i \in 1..CtN(r) |-> IF K!ChromName(r.pfx, CtBase(r, i)) = K!XLabel(r.pfx) THEN r.k[i] + d ELSE r.k[i]]
 (* expect_flat_log2: haploid ref: chr_x_filter(genome) | chr_y_filter(genome);  else chr_y_filter() (PAR included)    *)
 CtAFlat(r) ==
     [i \in 1..CtN(r) |->
         LET b == CtBase(r, i) IN
-        IF r.hapx THEN (IF ChrXFilter(r.pfx, r.pfx, b, r.s[i], r.e[i], r.genome)
-                           \/ ChrYFilter(r.pfx, r.pfx, b, r.s[i], r.e[i], r.genome) THEN -r.U ELSE 0)
-        ELSE (IF ChrYFilter(r.pfx, r.pfx, b, r.s[i], r.e[i], "none") THEN -r.U ELSE 0)]
+        IF r.hapx THEN (IF K!ChrXFilter(r.pfx, r.pfx, b, r.s[i], r.e[i], r.genome)
+                           \/ K!ChrYFilter(r.pfx, r.pfx, b, r.s[i], r.e[i], r.genome) THEN -r.U ELSE 0)
+        ELSE (IF K!ChrYFilter(r.pfx, r.pfx, b, r.s[i], r.e[i], "none") THEN -r.U ELSE 0)]
 
 (* ================================================================ clauses *)
 Clauses(op) ==
@@ -270,7 +271,7 @@ Holds(c, r) ==
 
 (* ================================================================ premise *)
 CtNamesOK(r) ==
-    /\ r.pfx \in Prefixes /\ r.genome \in Genomes
+    /\ r.pfx \in K!Prefixes /\ r.genome \in K!Genomes
     /\ Len(r.bs) = CtN(r) /\ Len(r.s) = CtN(r) /\ Len(r.e) = CtN(r) /\ Len(r.dz) = CtN(r)
     /\ \A i \in 1..CtN(r) : /\ (r.bn[i] >= 0 /\ r.bs[i] = "") \/ (r.bn[i] = -1 /\ r.bs[i] \in CtOtherNames)
                             /\ 0 <= r.s[i] /\ r.s[i] < r.e[i]
